@@ -1,6 +1,6 @@
 """C09 — Realm storage usage and deposits are accounted exactly.
 
-(M) spec/StorageDeposit.tla (per-message lock / refund in sorted realm order, price at message
+(M) spec/StorageDeposit.tla (per-message lock / refund of object delta + chain/params delta in sorted realm order, price at message
     start, truncating refund ratio, restricted-denom routing) model-checked with TLC.
 (V) seeded histories of deployments / grow / shrink / rewrite / cross-realm writes /
     foreign-owned objects / chain-params writes / price changes / restricted-denom toggles run
@@ -146,11 +146,12 @@ def run(ctx):
         return
     quick = ctx.tier == "quick"
     cfg = "StorageDeposit_q.cfg" if quick else "StorageDeposit_t.cfg"
-    r = vlib.run_tlc(ctx, "MCStorageDeposit", cfg, timeout=3000, workers=4 if quick else 8)
-    vlib.require_model_ok(r, cfg)
-    ctx.add_tlc(r, "exhaustive " + cfg)
+    for c in ([cfg] if quick else [cfg, "StorageDeposit_t2.cfg"]):
+        r = vlib.run_tlc(ctx, "MCStorageDeposit", c, timeout=3000, workers=4 if quick else 8)
+        vlib.require_model_ok(r, c)
+        ctx.add_tlc(r, "exhaustive " + c)
     out = os.path.join(ctx.scratch_dir("rec"), "storagedep_trace.ndjson")
-    nhist, ntx = (1, 50) if quick else (6, 160)
+    nhist, ntx = (1, 56) if quick else (6, 160)
     res = vlib.run_driver(ctx, binary, ["-out", out, "-n", str(ntx), "-x", str(nhist)], timeout=3000)
     s = vlib.handle_driver_results(ctx, res)
     lines = [json.loads(l) for l in open(out) if l.strip()]
@@ -158,7 +159,9 @@ def run(ctx):
     ctx.cov["recorded_lines"] = len(lines)
     ctx.cov["messages"] = {"ok": int(s.get("ok", 0)), "failed": int(s.get("failed", 0)), "twins": int(s.get("twins", 0))}
     cls = {"lock": 0, "refund": 0, "lock+refund": 0, "multi_realm": 0, "price_change": 0, "restricted_refund": 0,
-           "limit_failures": 0, "foreign_owned": 0, "params": 0}
+           "limit_failures": 0, "foreign_owned": 0, "params": 0,
+           # one realm changes its objects AND its own chain/params bytes in one message
+           "obj+params_same_sign": 0, "obj+params_opposite_sign": 0, "obj+params_two_realms": 0}
     prev = None
     for x in lines:
         if x.get("act") == "Msg" and prev is not None:
@@ -181,11 +184,20 @@ def run(ctx):
                 cls["foreign_owned"] += 1
             if "Param" in x.get("what", ""):
                 cls["params"] += 1
+            both = [(x["odiffs"][r], x["pdiffs"][r]) for r in REALMS if x.get("odiffs", {}).get(r) and x.get("pdiffs", {}).get(r)]
+            if x["ok"]:
+                cls["obj+params_same_sign"] += sum(1 for o, p in both if (o > 0) == (p > 0))
+                cls["obj+params_opposite_sign"] += sum(1 for o, p in both if (o > 0) != (p > 0))
+                if len(both) > 1:
+                    cls["obj+params_two_realms"] += 1
         if "st" in x:
             prev = x["st"]
     ctx.cov["message_classes"] = cls
     need = ["lock", "refund", "multi_realm", "price_change", "params"] + ([] if quick else ["limit_failures", "restricted_refund", "foreign_owned"])
     missing = [k for k in need if not cls[k]]
+    for k, nq, nt in (("obj+params_same_sign", 3, 30), ("obj+params_opposite_sign", 2, 20), ("obj+params_two_realms", 1, 6)):
+        if cls[k] < (nq if quick else nt):
+            missing.append("%s (%d)" % (k, cls[k]))
     if missing:
         raise vlib.Inconclusive("VACUOUS", "the recorded histories never produced: %s" % missing)
     for x in msgs[:4]:
